@@ -93,6 +93,8 @@ def run_one(sc, prefix=(), seed=0, keep=False):
                 probs.append("peer's message was not acknowledged (EndOfMsgACK) by the stack")
         if st.job.exc is not None:
             probs.append("job thread dead: %s" % st.job.exc_type)
+        if bus.storm:
+            probs.append("frame storm: more than %d frames on the bus" % bus.cap)
         outcome = ([(f.src, f.can_id, f.data) for f in bus.log], len(rec.items))
         trace = [f.brief() for f in bus.log] if keep else None
         return ch.points, probs, outcome, trace
